@@ -176,6 +176,10 @@ class BO(Conversions):
         for k, v in _generate_key_value_pairs(*args, **kwargs):
             self._mapping[k] = v
             self._reverse_mapping[v] = k
+        # labels added later must not reuse an index of the given mapping
+        self._next_label = max(
+            self._next_label, 1 + max(self._reverse_mapping, default=-1)
+        )
 
     def set_reverse_mapping(self, *args, **kwargs):
         """set_reverse_mapping.
@@ -200,6 +204,10 @@ class BO(Conversions):
         for k, v in _generate_key_value_pairs(*args, **kwargs):
             self._mapping[v] = k
             self._reverse_mapping[k] = v
+        # labels added later must not reuse an index of the given mapping
+        self._next_label = max(
+            self._next_label, 1 + max(self._reverse_mapping, default=-1)
+        )
 
     def __setitem__(self, key, value):
         """__setitem__.
